@@ -274,11 +274,9 @@ fn synced(st: &HostState, touched: &BTreeSet<String>) -> Result<(), String> {
             return Err(format!("session's knowledge of {} is out of date", f));
         }
     }
-    for f in touched {
-        if st.fs.contains_key(f) && !st.session_view.contains_key(f) {
-            return Err(format!("{} changed and the session was never told", f));
-        }
-    }
+    // (a file the session holds nothing of - never read, or only ever asked for in vain - does not
+    // stand in the way: the session has to ask for it when a build needs it)
+    let _ = touched;
     Ok(())
 }
 
